@@ -403,6 +403,15 @@ class ProgBase(HookMixin, ContextMixin, Process):
                     world.cur().extra.setdefault('cb_excs', {}).setdefault(tag, []).append(exc)
                     raise exc
 
+            if mode == 'async_obj':
+                # a callback that is a callable object with an async __call__ (not a coroutine function)
+                class _AsyncCallback:
+                    async def __call__(self_cb, proc=self):  # noqa: N805
+                        world.cur().tr(pid, {'k': 'cb', 'tag': tag, 'cur': Process.current() is proc, 'state': proc.state.value})
+                        await asyncio.sleep(0)
+                        world.cur().tr(pid, {'k': 'cb-resumed', 'tag': tag, 'cur': Process.current() is proc, 'state': proc.state.value})
+
+                callback = _AsyncCallback()
             if mode == 'await_child':
                 # a coroutine callback that steps another process in its own task; it may well run after this process
                 # has terminated (scheduled by the last step)
@@ -641,12 +650,27 @@ class EagerWaiting(process_states.Waiting):
             self.resume(dec(plan[serial]))
 
 
+class SamplingWaiting(process_states.Waiting):
+    """A WAITING state whose execute() runs code of the process before and after the wait (as the states of
+    applications built on plumpy do): that code runs in the scope of the process like a step does."""
+
+    async def execute(self):
+        proc = self.process
+        world.cur().tr(proc.pid, {'k': 'wait-execute', 'cur': Process.current() is proc, 'state': proc.state.value})
+        try:
+            return await super().execute()
+        finally:
+            world.cur().tr(proc.pid, {'k': 'wait-executed', 'cur': Process.current() is proc, 'state': proc.state.value})
+
+
 def _eager_state_classes(cls):
     classes = dict(super(cls._pv_eager_owner, cls).get_state_classes())
     if cls.PROGRAM.get('eager_waiting'):
         classes[process_states.ProcessState.WAITING] = EagerWaiting
     if cls.PROGRAM.get('interruptible_running'):
         classes[process_states.ProcessState.RUNNING] = InterruptibleRunning
+    if cls.PROGRAM.get('sampling_waiting'):
+        classes[process_states.ProcessState.WAITING] = SamplingWaiting
     return classes
 
 
@@ -666,10 +690,10 @@ def make_class(program, base=None):
         namespace['_spec_class'] = port_model.spec_class_for(program['spec']['sep'])
     for idx, step in enumerate(steps):
         namespace[step_name(idx)] = _make_step(idx, bool(step.get('async')))
-    if program.get('eager_waiting') or program.get('interruptible_running'):
+    if program.get('eager_waiting') or program.get('interruptible_running') or program.get('sampling_waiting'):
         namespace['get_state_classes'] = classmethod(_eager_state_classes)
     cls = type(name, (base or (CodecProg if program.get('codec') else ProgBase),), namespace)
-    if program.get('eager_waiting') or program.get('interruptible_running'):
+    if program.get('eager_waiting') or program.get('interruptible_running') or program.get('sampling_waiting'):
         cls._pv_eager_owner = cls
     setattr(gen_classes, name, cls)
     _CLASS_COUNT += 1
